@@ -41,6 +41,9 @@ def plan(tier):
     n, per = (16, 200) if tier == "quick" else (16, 3000)
     descs = [{"kind": "random", "examples": per, "sweep": build.attachable_types()[i::n]} for i in range(n)]
     descs.append({"kind": "empty_synth"})
+    # the types with the largest type-specific payloads get shards of their own
+    for t in ("Sampler", "Sampler", "MetaModule", "MultiSynth", "SpectraVoice"):
+        descs.append({"kind": "heavy", "type": t, "examples": per // 2})
     return descs
 
 
@@ -224,6 +227,10 @@ def run_shard(ctx, desc):
             ctx.sample(ms)
 
     depth = 1 if ctx.tier == "quick" else 2
+    if desc["kind"] == "heavy":
+        run_property(ctx, spec_with_followup(in_project=True, depth=depth, tname=desc["type"], dense=True), body, desc["examples"], tag="heavy_" + desc["type"], bucket="module")
+        ctx.label("heavy_" + desc["type"])
+        return
 
     def body_deep(ms):
         body(ms)
